@@ -14,6 +14,7 @@ CONSTANTS
   EdgeTypes = {"tA", "tB"}
   NodeTypes = {"tA"}
   Export = TRUE
+  FreeWarps = {}
   None = None
 INVARIANTS Inv_WellFormed Inv_DiffLaw Inv_DiffIdentity Inv_Export
 CHECK_DEADLOCK FALSE
